@@ -98,6 +98,8 @@ class Escape:
         self.cha_sites: list = []
         self.changed = False
         self.guard = None  # callback(f, node, what) -> bool: implicit raise discharged by a recogniser
+        self.trusted_call = None  # callback(f, call) -> bool: the call validates an API argument of f; what it raises is the caller's contract, not a parse result
+        self.trusted_sites: list = []
         self._ctx = None
         self._kinds: dict = {}
         self._isi_cache: dict = {}
@@ -320,6 +322,9 @@ class Escape:
             if skip_top and n is e:
                 # the exception constructor itself
                 pass
+            if self.trusted_call is not None and self.trusted_call(f, n):
+                self.trusted_sites.append((f.qualname, n.lineno, src(n.func)[:50]))
+                continue
             callees, kind = self._callees(f, n)
             if kind == "unresolved":
                 self.unresolved.append((f.qualname, n.lineno, src(n.func)[:50]))
